@@ -189,7 +189,7 @@ func ints(b []byte) []int {
 // Scenario is one independent run against its own network and cluster.
 type Scenario struct {
 	Name     string
-	Versions map[int16]int16 // highest advertised version per API key (others: fakekafka.DefaultVersions)
+	Versions map[int16]int16 // highest advertised version per API key (others: fakekafka.DefaultVersions); -1: not advertised at all
 	Sasl     bool
 	Run      func(e *env)
 }
@@ -208,7 +208,11 @@ func newEnv(sc *Scenario, seed int64) *env {
 	cl := fakekafka.NewCluster(n, 2)
 	vs := fakekafka.DefaultVersions()
 	for k, max := range sc.Versions {
-		vs[k] = fakekafka.VersionRange{Min: 0, Max: max}
+		if max < 0 {
+			delete(vs, k) // the API is not advertised at all
+		} else {
+			vs[k] = fakekafka.VersionRange{Min: 0, Max: max}
+		}
 	}
 	cl.Versions = vs
 	add := func(name string, parts int) {
